@@ -145,11 +145,6 @@ func (q *InQueue) Append(val *Packet) error {
 			}
 		}
 
-		// Shorten the list of acked chunks
-		if len(q.acked) > MaxCachedChunks {
-			// Remove first acked chunk
-			q.acked = q.acked[1:]
-		}
 	} else {
 		// Check if this is not a "weird" chunk
 		inWindow := false
@@ -165,6 +160,11 @@ func (q *InQueue) Append(val *Packet) error {
 		// Out of order chunk, store it for later
 		q.future = append(q.future, val)
 		q.acked = append(q.acked, val.SeqNo)
+	}
+
+	// Shorten the list of acked chunks: forget the oldest ones
+	if len(q.acked) > MaxCachedChunks {
+		q.acked = q.acked[len(q.acked)-MaxCachedChunks:]
 	}
 
 	q.checkQueueHasAny()
